@@ -27,6 +27,9 @@ CLAIMED = {
  "C09": dict(level="exploration", technique="generated-program compile testing: repository CLI + real rustc in module and component mode",
              text="Every generated program (wide profile: arities up to 9, constants, nullary predicates, enums) is compiled by the repository CLI; accepted programs must compile with rustc and link against the runtime in both build modes and run an empty history.",
              note="Identifier pools avoid Rust keywords and generator-emitted names, as the property states.", ref="3/C09"),
+ "C10": dict(level="exploration", technique="mutation-based differential testing: single-defect mutants with by-construction verdicts + reference-free metamorphic relations",
+             text="Well-formed generated programs must be accepted; single-defect mutants (19 operators) must be rejected with an error whose class and line belong to the injected defect; alpha-renaming, declaration permutation, re-layout and unused declarations must preserve verdict and class.",
+             note="The reference verdict of a mutant is the set of admissible (class, line) pairs given by its operator, not a complete second implementation of the static semantics; fragment without models and casing errors.", ref="3/C10"),
  "C11": dict(level="exploration", technique="mutation-based fuzzing of source text (token, line-ending and byte level) with a diagnostic-grammar oracle",
              text="Corpus (generated programs, repository theories and error tests) x 1-3 mutations per input; the compiler must exit 0 or 1, and every diagnostic must parse, name a line inside the file and print complete input lines containing it.",
              note="Inputs are valid UTF-8 of at most 8 KB; time-outs are inconclusive. Coverage-guided fuzzing of the compiler was rejected (DESIGN section 6).", ref="3/C11"),
@@ -42,6 +45,9 @@ CLAIMED = {
  "C16": dict(level="exploration", technique="generated programs; executable predicate over the emitted rule functions (all 2^n new/old labellings per family)",
              text="For every generated program the emitted sub-rule families are parsed (flat-rule comment and index fields read per premise position) and every new/old labelling is checked to be admitted by exactly one sub-rule (none for all-old).",
              note="A statement about emitted plans; decided by enumeration over labellings for each generated program, not by running the model.", ref="3/C16"),
+ "C17": dict(level="exploration", technique="property-based testing of model programs against a reference chase with inheritance spelled out as rules (isomorphism after every close)",
+             text="Generated programs with one model declaration and rules over member atoms; generated acyclic morphism graphs, member/global facts and schedules (morphism rows, facts and closes interleaved); after every close the model must be closed and isomorphic to the reference chase in which inheritance along morphisms is an ordinary rule.",
+             note="Member relations range over global types only; morphism graphs acyclic by construction; the trigger of the recorded finding (morphism rows after a close that saw facts) is excluded from generation and demonstrated by a replay.", ref="3/C17"),
  "C19": dict(level="exploration", technique="text comparison of module vs component outputs + differential execution of generated histories on both builds",
              text="Component sources are compared with the rule modules of the module build, environment structs/signatures/link names on both sides of the boundary are compared, and generated histories must give byte-identical transcripts on both drivers.",
              note="Real rustc builds the component libraries.", ref="3/C19"),
